@@ -37,6 +37,12 @@ def run_case(case):
                         cp['oracle'] += diagram.oracle_roi(run, mi, d) if roi else diagram.oracle_full(run, mi, d)
                     except diagram.ParseError as e:
                         cp['oracle'].append(('unparseable', {'error': str(e)}, 'C16.parse'))
+                # open finding (shared markup): the model does not mirror the foreign state; correspondence not compared
+                cp['skip_corr'] = run.shares_markup()
+                if cp['skip_corr']:
+                    # the diagram is drawn from a dict the other machine has rewritten (its states, its options):
+                    # every clause that fails here is this finding
+                    cp['oracle'] = [(w, det, diagram.SIG_CLONE) for w, det, _sig in cp['oracle']]
                 cp['cur'] = [diagram.name_of(p) for p in run.cur(mi)]
                 cps.append(cp)
 
@@ -47,6 +53,7 @@ def run_case(case):
             stopped = (k, err)
             break
         checkpoint(k)
+    run.close()
     return cps, stopped, run
 
 
@@ -61,6 +68,8 @@ def judge(case, cps, answers):
             out.append(Failure('monitor', what, case, det, signature=sig))
         if ans == 'bad-input':
             raise common.MachineryError('driver rejected a c16 request: %r' % (cp['req'][:60],))
+        if cp.get('skip_corr'):
+            continue
         if cp['roi']:
             # the root `[*] -->` marker of the ROI view is not constrained by the property
             # (Enum states: `roi_state == machine.initial` compares an Enum with a name)
@@ -163,7 +172,7 @@ def account(cases):
             if v:
                 st['options'][o] = st['options'].get(o, 0) + 1
         for o, v in (('enum_states', case['enum']), ('queued', case.get('queued')), ('retrigger_callbacks', case.get('retrig')),
-                     ('locked_class', case.get('locked')), ('machine_modifying_callback', case.get('modcb')), ('custom_model_attribute', case.get('model_attr') == 'custom'),
+                     ('locked_class', case.get('locked')), ('async_class', case.get('async')), ('machine_modifying_callback', case.get('modcb')), ('custom_model_attribute', case.get('model_attr') == 'custom'),
                      ('custom_attribute_and_own_state', case.get('model_attr') == 'custom' and case.get('own_state'))):
             if v:
                 st['options'][o] = st['options'].get(o, 0) + 1
@@ -199,7 +208,7 @@ def shrink_steps(case):
         c = copy.deepcopy(case)
         del c['retrig'][cb]
         yield c
-    for key in ('queued', 'locked', 'own_state'):
+    for key in ('queued', 'locked', 'own_state', 'async'):
         if case.get(key):
             c = copy.deepcopy(case)
             c[key] = False
@@ -285,7 +294,7 @@ class C16(runner.Check):
             'GraphMachine / HierarchicalGraphMachine configurations on the Mermaid engine with labels, final flags, '
             'on_enter/on_exit, conditions/unless, internal / reflexive / wildcard / multi-source transitions at the root '
             'and inside compound states, show_conditions / show_auto_transitions / show_state_attributes / '
-            'auto_transitions on and off, queued and unqueued, plain and Locked graph classes, default and custom '
+            'auto_transitions on and off, queued and unqueued, plain, Locked and asynchronous graph classes (events awaited one at a time), default and custom '
             'model_attribute (models with and without an unrelated own `state` attribute), 1-2 external model objects plus '
             'models registered later with add_model, on_enter / transition-after '
             'callbacks that fire further events on the same model (nested events), histories of 2-9 operations (trigger '
@@ -390,6 +399,11 @@ class C16(runner.Check):
             'machine is C13/C14 business); automatic = trigger name starts with "to_", which generated names never do',
             'state tags / timeouts (feature mixins) in show_state_attributes are not generated; histories stop at an '
             'operation on which the engine itself raises (other properties)',
+            'open finding (shared markup): after a second machine was built from machine.markup, extended and exported, '
+            'this machine\'s diagrams show the foreign state; classified by the presence of exactly that state, '
+            'correspondence skipped on those diagrams',
+            'asynchronous graph classes: events awaited one at a time, plain-function callbacks, no transition labels '
+            '(AsyncTransition rejects the label keyword), no callbacks that fire events or change the machine',
             'one open finding: a state callback that changes the machine (add_transition) while a state change is in '
             'progress regenerates the graph for the source state (two active states); classified when the graph of that '
             'model was regenerated with a transition in progress and the extra active state is that transition\'s source '
